@@ -82,7 +82,42 @@ def render_lib(lib):
     return "\n".join(lines) + "\n"
 
 
+def generic_view(f):
+    """the generic spelling of a function that DDPStatic sees specialised: every occurrence of the type f["genview"] in the parameter
+    types, the return type and the declared types of the body is written as the type parameter T"""
+    conc = f["genview"]
+
+    def g(x):
+        if isinstance(x, dict):
+            if x == conc:
+                return {"g": "T"}
+            if x.get("k") in ("lit", "id"):
+                return x
+            return {k: g(v) for k, v in x.items()}
+        if isinstance(x, list):
+            return [g(v) for v in x]
+        return x
+    f2 = dict(f, generic=True)
+    f2["params"] = [dict(p_, t=g(p_["t"])) for p_ in f["params"]]
+    f2["ret"] = g(f["ret"])
+
+    def body(ss):
+        out = []
+        for st in ss:
+            st = dict(st)
+            if st["k"] in ("var", "for", "foreach") and "t" in st:
+                st["t"] = g(st["t"])
+            for k in ("body", "then", "else"):
+                if k in st:
+                    st[k] = body(st[k])
+            out.append(st)
+        return out
+    f2["body"] = body(f["body"])
+    return f2
+
+
 def render_main(P):
+    P = dict(P, funcs=[generic_view(f) if f.get("genview") else f for f in P["funcs"]])
     lines = ['Binde "Duden/Ausgabe" ein.', 'Binde "c04lib" ein.', ""] + TYPEDECLS + semgen.TYPEDECLS_SEM
     for sd in P["structs"]:
         lines += render_struct(sd, False)
@@ -235,6 +270,14 @@ def mutants_of(P, unit, rng, lib):
                 out.append(("type:" + role, ("replace", path, w)))
         if node["k"] == "id":
             out.append(("undeclared", ("replace", path, dict(node, n="unbekannt_" + node["n"]))))
+            if unit[0] == "func":
+                # declared only after the function (and, for a generic function, in the block of the call): not in the scope of the body
+                gen = bool(P["funcs"][unit[1]].get("genview"))
+                for later in ("SPAETER_K", "spaeter_v"):
+                    out.append(("undeclared:later-global" + (":generic-body" if gen else ""), ("replace", path, dict(node, n=later))))
+                if gen:
+                    for later in ("LOKAL_K", "lokal_v"):
+                        out.append(("undeclared:local-of-the-call-site:generic-body", ("replace", path, dict(node, n=later))))
     # 2. statements inserted at every position of every statement list
     PRIV = TS("Punkt")
     ins = [("const:assign", setv(lvid("KONST_Z"), zl(1))), ("const:assign-imported", setv(lvid("LIB_K"), zl(1))),
@@ -293,7 +336,7 @@ def mutants_of(P, unit, rng, lib):
             out.append(("missing-return:conditional", ("replace", ["funcs", unit[1], "body", n - 1], if_(lit(W(True)), [f["body"][-1]]))))
             out.append(("missing-return:in-block", ("replace", ["funcs", unit[1], "body", n - 1], {"k": "block", "body": [f["body"][-1]]})))
             out.append(("missing-return:statement-after", ("insert", ["funcs", unit[1], "body"], n, {"k": "print", "e": lit(T("nach der rueckgabe")), "nl": True})))
-        if f["ret"] != TNONE:
+        if f["ret"] != TNONE and not (f.get("genview") and mentions(f["ret"], f["genview"])):
             out.append(("article:return-type", ("set", ["funcs", unit[1], "retart"], False)))
         out.append(("redeclared:function", ("dupfunc", unit[1])))
     # 5. articles
@@ -301,6 +344,9 @@ def mutants_of(P, unit, rng, lib):
         for i, s in enumerate(get(P, lp)):
             if lp == ["main"] and i < P["nearly"]:
                 continue
+            gv = P["funcs"][unit[1]].get("genview") if unit[0] == "func" else None
+            if gv and s["k"] in ("var", "for", "foreach") and mentions(s.get("t"), gv):
+                continue      # the grammatical gender of a type parameter is not defined: no article rule to break
             if s["k"] in ("var", "for", "foreach"):
                 out.append(("article:%s" % ("constant" if s.get("c") else {"var": "variable", "for": "for", "foreach": "foreach"}[s["k"]]), ("set", lp + [i, "art"], False)))
     # 6. visibility of the imported declarations (only in the unit that uses them)
@@ -317,6 +363,10 @@ def mutants_of(P, unit, rng, lib):
             if f["pub"]:
                 out.append(("nonpublic:function-flip", ("lib", "funcs", i, None)))
     return out
+
+
+def mentions(t, conc):
+    return t == conc or (isinstance(t, dict) and "l" in t and mentions(t["l"], conc))
 
 
 def semgen_default(t):
@@ -401,11 +451,22 @@ def base_programs(tier, rng):
     return cases
 
 
+# generic functions (rendered with the type parameter T in place of `genview`)
+GEN_FUNCS = [
+    dict(fn("gen_versetzt", [("x", TZ, False)], TZ, [var("h", TZ, bin_("plus", ident("x"), ident("KONST_Z")), False), {"k": "ret", "e": bin_("mal", ident("h"), zl(2))}]), genview=TZ),
+    dict(fn("gen_erstes", [("l", ddp.TL(TZ), False), ("ersatz", TZ, False)], TZ, [if_(bin_("gt", {"k": "un", "op": "len", "r": ident("l")}, zl(0)), [{"k": "ret", "e": bin_("idx", ident("l"), zl(1))}]),
+                                                                                  var("e", TZ, ident("ersatz"), False), {"k": "ret", "e": ident("e")}]), genview=TZ),
+    dict(fn("gen_zaehle", [("l", ddp.TL(TT), False), ("x", TT, False)], TZ, [var("n", TZ, ident("KONST_Z"), False),
+                                                                            {"k": "foreach", "v": "e", "t": TT, "idx": "", "in": ident("l"), "body": [if_(bin_("eq", ident("e"), ident("x")), [setv(lvid("n"), bin_("plus", ident("n"), zl(1)))])]},
+                                                                            {"k": "ret", "e": ident("n")}]), genview=TT),
+]
+
+
 def make_units(cases):
     """one full program per unit: (P, unit, key)"""
     units = []
     nearly = list(semgen.GLOBALS) + CONSTS + TYPE_GLOBALS
-    funcs = [dict(f) for f in semgen.FUNCS_C06] + TYPE_FUNCS
+    funcs = [dict(f) for f in semgen.FUNCS_C06] + TYPE_FUNCS + copy.deepcopy(GEN_FUNCS)
     structs = [dict(n=s["n"], fields=[dict(f, pub=True) for f in s["fields"]]) for s in semgen.STRUCTS.values()]
 
     def prog(main_tail):
@@ -414,8 +475,16 @@ def make_units(cases):
         body = c.setup + semgen.print_value(c.expr, c.t, "c%d" % i) + [semgen.pr(lit(T("")), True)]
         units.append((prog([{"k": "block", "body": body}]), ("block", 0, False), c.key))
     units.append((prog([lib_uses_block()]), ("block", 0, True), "zoo:imported-module"))
+    # after the functions: names that exist only from here on (the scope of a call site, not of a function declared above), and for
+    # the generic functions a call from the top level and one from a block with a local Konstante (a generic body is only checked when instantiated)
     for fi, f in enumerate(funcs):
-        units.append((prog([]), ("func", fi), "func:" + f["n"]))
+        tail = [dict(var("SPAETER_K", TZ, lit(Z(100))), c=True), var("spaeter_v", TZ, zl(5))]
+        if f.get("genview"):
+            args = [(p_["n"], semgen_default(p_["t"])) for p_ in f["params"]]
+            use = (lambda: var("c04_erg", f["ret"], call(f["n"], args), False)) if f["ret"] != TNONE else (lambda: {"k": "expr", "e": call(f["n"], args)})
+            tail += [{"k": "block", "body": [dict(var("LOKAL_K", TZ, lit(Z(7)), False), c=True), var("lokal_v", TZ, zl(8), False), use()]},
+                     {"k": "block", "body": [use()]}]
+        units.append((prog(tail), ("func", fi), "func:" + f["n"]))
     return units
 
 
